@@ -102,9 +102,9 @@ def finalClaims (s : St) : Nat → Nat
     let s0 := { s with senders := s.senders ++ [.idle] }
     let s1 := step s0 (.sender m false 0)
     match s1.senders[m]? with
-    | some .gotPerm =>
-      let s3 := step (step s1 (.sender m false 0)) (.sender m false 0)
-      finalClaims s3 fuel + 1
+    | some (.loadedFree _) =>      -- compare-exchange on num_free, load sendp, compare-exchange on sendp
+      let s4 := step (step (step s1 (.sender m false 0)) (.sender m false 0)) (.sender m false 0)
+      finalClaims s4 fuel + 1
     | _ => 0
 
 def runSchedule (d : D) (toks : List String) : D × List String :=
